@@ -57,7 +57,7 @@ Print Assumptions C14_match_route_total_refuted.
 Theorem C14_match_iff_flat_except_known :
   forall base rs p,
     wf_tree rs = true -> wf_routes rs = true -> starts_with_slash p = true ->
-    known_class base rs p = false ->
+    known_class_coarse base rs p = false ->
     matches base rs p = flat_any base rs p /\ match_route base rs p <> MPanic.
 Proof. exact match_iff_flat_except_known. Qed.
 Print Assumptions C14_match_iff_flat_except_known.
@@ -80,7 +80,7 @@ Print Assumptions C14_first_match_wins.
 Theorem C14_first_flat_route_wins_except_known :
   forall rs p ch ps,
     wf_tree rs = true -> wf_routes rs = true -> starts_with_slash p = true ->
-    known_class None rs p = false ->
+    known_class_coarse None rs p = false ->
     match_route None rs p = MYes ch ps ->
     exists pre f post r,
       gen_routes rs = pre ++ f :: post
@@ -123,7 +123,7 @@ Print Assumptions C14_nested_partition_except_known.
 Theorem C14_params_are_segments_except_known :
   forall rs p ch ps,
     wf_tree rs = true -> wf_routes rs = true -> starts_with_slash p = true ->
-    known_class None rs p = false ->
+    known_class_coarse None rs p = false ->
     match_route None rs p = MYes ch ps ->
     exists f r, In f (gen_routes rs) /\ spre (toks f) p = Some (ps, r) /\ rem_ok r = true.
 Proof. exact params_are_segments. Qed.
@@ -156,7 +156,7 @@ Theorem C14_build_then_match_except_known :
     wf_tree rs = true -> wf_routes rs = true ->
     gen_routes rs = [f] ->
     vals_ok f vals -> p = build_path f vals ->
-    known_class None rs p = false ->
+    known_class_coarse None rs p = false ->
     exists ch, match_route None rs p = MYes ch (bindings f vals).
 Proof. exact build_then_match. Qed.
 Print Assumptions C14_build_then_match_except_known.
